@@ -201,9 +201,18 @@ def run(ctx):
                     d = bytes(rng.randrange(256) for _ in range(ln))
                     body += off.to_bytes(3, "big") + ln.to_bytes(2, "big") + d
                     recs.append((off, d))
+            if i % 3 == 0:
+                # records that touch and overlap: A, B over the bytes after A's end, C starting exactly at A's end
+                x = rng.randrange(0x200, 0x8000)
+                la = rng.randrange(1, 6)
+                recs = [(x, bytes(rng.randrange(256) for _ in range(la))), (x + la - rng.randrange(0, 2), bytes(rng.randrange(256) for _ in range(4))),
+                        (x + la, bytes(rng.randrange(256) for _ in range(2)))]
+                body = b"".join(a.to_bytes(3, "big") + len(d).to_bytes(2, "big") + d for a, d in recs)
             with open(os.path.join(tmp, "top.ips"), "wb") as fh:
                 fh.write(b"PATCH" + body + b"EOF")
             delta = rng.choice([0, 0x10, 0x20, 0x200, 0x1000, 0x10000, 0x100000, 0x1000000, -0x10, (1 << 24) - 0x8000, 0xFFFF0000])
+            if i % 3 == 0:
+                delta = rng.choice([0, 4, 0x200])
             copier = rng.random() < 0.4
             src = f"*=0x008000\n.db 1,2,3\n.include_ips 'top.ips', {delta if delta >= 0 else '-' + str(-delta)}\n.db 4\n"
             f = io.BytesIO()
@@ -244,8 +253,12 @@ def run(ctx):
             for blk in got:
                 if j < len(exp) and blk == exp[j]:
                     j += 1
-            if j != len(exp):
+            from props.c11 import apply as _apply
+            want_img = _apply([(0x0 + shift, b"\x01\x02\x03")] + exp + [(0x3 + shift, b"\x04")])
+            if j != len(exp) and _apply(got) != want_img:
                 s3.violate(inp, [(hex(a), d[:4].hex()) for a, d in exp], [(hex(a), d[:4].hex()) for a, d in got], "the patch file does not hold the included records at offset + delta, in order")
+            elif _apply(got) != want_img:
+                s3.violate(inp, "image = program bytes, then each included record in order", [(hex(a), d[:4].hex()) for a, d in got], "applying the written patch does not give each included record's bytes at its offset, in record order (a later record must win where records overlap)")
         s3.sample({"example": ".include_ips 'top.ips', 0x20 with a record at 0xFFFFF0"})
         return [s, s2, s3]
     finally:
